@@ -251,7 +251,13 @@ void lweSymEncryptWithExternalNoise(LweSample *result, Torus32 message, double n
 void h_b_createKeySwitchKey(void) {
     for (int p = 0; p < B_n * B_T; p++) l1[p] = rows + B_BASE * p;
     for (int p = 0; p < B_n; p++) l0[p] = l1 + B_T * p;
-    LweParams op; *(double *)&op.alpha_min = VERIF_ALPHA; *(int32_t *)&op.n = 3; LweParams ipar; *(int32_t *)&ipar.n = B_n; *(double *)&ipar.alpha_min = 0.25;
+#ifdef KS_ALPHA_SYMBOLIC
+    double a_sym; __CPROVER_assume(a_sym >= 0.0 && a_sym <= 1.0);   /* every noise level, 0 included: the rows must be masked encryptions at every level */
+    LweParams op; *(double *)&op.alpha_min = a_sym; *(int32_t *)&op.n = 3;
+#else
+    LweParams op; *(double *)&op.alpha_min = VERIF_ALPHA; *(int32_t *)&op.n = 3;
+#endif
+    LweParams ipar; *(int32_t *)&ipar.n = B_n; *(double *)&ipar.alpha_min = 0.25;
     LweKeySwitchKey ks; ks.n = B_n; ks.t = B_T; ks.basebit = B_BB; ks.base = B_BASE; ks.out_params = &op; ks.ks0_raw = rows; ks.ks1_raw = l1; ks.ks = l0;
     int32_t inkey[B_n]; LweKey in; in.params = &ipar; in.key = inkey; LweKey out; out.params = &op;
     /* history independence: an earlier key-switching key with another noise level may have been created in this process */
@@ -361,6 +367,90 @@ void h_tLweSymDecrypt(void) {
     __CPROVER_assert(n_new == 1 && new_N == N && s_ph == 1 && p_r == g_tmp && p_s == &s && p_k == &key, "constant message: phase polynomial of N coefficients under the given key");
     __CPROVER_assert(n_ap == 1 && ap_M == in_M && r == ap_out && n_del == 1 && bad == 0, "its coefficient 0 is rounded to the grid 1/Msize and returned; temporary released");
     free(res.coefsT);
+    VERIF_REACH();
+}
+#endif
+
+#ifdef H_TLWEKEYGEN
+/* tLweKeyGen (k x N draws from {0,1}) and tGswKeyGen (= tLweKeyGen on the embedded TLWE key) */
+int32_t g_i;
+#include "extracted.inc"
+void h_tLweKeyGen(void) {
+    int32_t N; __CPROVER_assume(N >= 1 && N <= 65536);
+    TLweParams tp; *(int32_t *)&tp.N = N; *(int32_t *)&tp.k = VERIF_K;
+    IntPolynomial kp[VERIF_K]; for (int i = 0; i < VERIF_K; i++) { *(int32_t *)&kp[i].N = N; kp[i].coefs = verif_alloc((size_t)N * sizeof(int32_t)); }
+    TGswParams gp; *(const TLweParams **)&gp.tlwe_params = &tp;
+    TGswKey gk; gk.params = &gp; *(const TLweParams **)&gk.tlwe_params = &tp; gk.key = kp; *(const TLweParams **)&gk.tlwe_key.params = &tp; gk.tlwe_key.key = kp;
+    int32_t gi, gc; __CPROVER_assume(gi >= 0 && gi < VERIF_K && gc >= 0 && gc < N); g_i = gi; g_k = gc;
+    SAMPLERS_RESET();
+#ifdef VIA_TGSW
+    tGswKeyGen(&gk);
+#else
+    tLweKeyGen(&gk.tlwe_key);
+#endif
+    __CPROVER_assert(g_n_uniform_int == VERIF_K * N && g_n_normal == 0 && g_n_uniform_t32 == 0, "one draw per key coefficient, from the integer sampler only");
+    __CPROVER_assert(g_ui_lo == 0 && g_ui_hi == 1, "drawn from the uniform distribution on {0,1}");
+    __CPROVER_assert(kp[g_i].coefs[g_k] == 0 || kp[g_i].coefs[g_k] == 1, "every ring key coefficient is a bit");
+    for (int i = 0; i < VERIF_K; i++) free(kp[i].coefs);
+    VERIF_REACH();
+}
+#endif
+
+#ifdef H_TGSWWRAP
+/* tGswSymEncrypt = tGswEncryptZero then += message*H;  tGswEncryptB = tGswEncryptZero then += H iff the bit is 1 */
+static int n_zero, n_addmu, n_addh, order_bad; static const void *z_res, *z_key, *m_res, *m_msg, *m_par, *h_res, *h_par; static double z_alpha;
+void tGswEncryptZero(TGswSample *result, double alpha, const TGswKey *key) { if (n_addmu || n_addh) order_bad = 1; n_zero++; z_res = result; z_alpha = alpha; z_key = key; }
+void tGswAddMuH(TGswSample *result, const IntPolynomial *message, const TGswParams *params) { if (n_zero != 1) order_bad = 1; n_addmu++; m_res = result; m_msg = message; m_par = params; }
+void tGswAddH(TGswSample *result, const TGswParams *params) { if (n_zero != 1) order_bad = 1; n_addh++; h_res = result; h_par = params; }
+#include "extracted.inc"
+void h_tGswWrappers(void) {
+    static TGswSample res; static IntPolynomial msg; static TGswParams gp; TGswKey key; key.params = &gp;
+    double alpha; __CPROVER_assume(alpha >= 0.0 && alpha <= 1.0);
+    n_zero = n_addmu = n_addh = order_bad = 0;
+    tGswSymEncrypt(&res, &msg, alpha, &key);
+    __CPROVER_assert(n_zero == 1 && z_res == (const void *)&res && z_alpha == alpha && z_key == (const void *)&key, "tGswSymEncrypt: one fresh encryption of zero with the requested noise level and key, into the result");
+    __CPROVER_assert(n_addmu == 1 && n_addh == 0 && !order_bad && m_res == (const void *)&res && m_msg == (const void *)&msg && m_par == (const void *)&gp, "tGswSymEncrypt: then the message times the gadget is added once, with the key's parameters");
+    int32_t bit; __CPROVER_assume(bit == 0 || bit == 1);      /* the message of tGswEncryptB is a bit */
+    n_zero = n_addmu = n_addh = order_bad = 0;
+    tGswEncryptB(&res, bit, alpha, &key);
+    __CPROVER_assert(n_zero == 1 && z_res == (const void *)&res && z_alpha == alpha && z_key == (const void *)&key, "tGswEncryptB: one fresh encryption of zero with the requested noise level and key");
+    __CPROVER_assert(n_addmu == 0 && !order_bad && n_addh == (bit == 1 ? 1 : 0) && (bit != 1 || (h_res == (const void *)&res && h_par == (const void *)&gp)), "tGswEncryptB: the gadget is added exactly when the bit is 1");
+    VERIF_REACH();
+}
+#endif
+
+#ifdef H_KEYSETGEN
+/* new_random_gate_bootstrapping_secret_keyset: fresh LWE key and ring key of the parameter set's own dimensions, both generated,
+ * the bootstrapping key built from exactly these two keys and the set's key-switch shape, its FFT image, all five stored */
+enum { E_NEWLWE = 1, E_GENLWE, E_NEWTGSW, E_GENTGSW, E_NEWBK, E_CREATEBK, E_NEWFFT };
+static int ev[12]; static int n_ev; static void evt(int e) { if (n_ev < 12) ev[n_ev] = e; n_ev++; }
+static LweKey o_lwe; static TGswKey o_tgsw; static LweBootstrappingKey o_bk; static char o_fft;
+static const void *a_lwe_par, *a_tgsw_par, *a_genlwe, *a_gentgsw, *a_bk_io, *a_bk_bp, *a_c_bk, *a_c_lwe, *a_c_tgsw, *a_fft_bk; static int32_t a_bk_t, a_bk_bb;
+LweKey *new_LweKey(const LweParams *params) { evt(E_NEWLWE); a_lwe_par = params; return &o_lwe; }
+void lweKeyGen(LweKey *result) { evt(E_GENLWE); a_genlwe = result; }
+TGswKey *new_TGswKey(const TGswParams *params) { evt(E_NEWTGSW); a_tgsw_par = params; return &o_tgsw; }
+void tGswKeyGen(TGswKey *result) { evt(E_GENTGSW); a_gentgsw = result; }
+LweBootstrappingKey *new_LweBootstrappingKey(const int32_t ks_t, const int32_t ks_basebit, const LweParams *in_out_params, const TGswParams *bk_params) {
+    evt(E_NEWBK); a_bk_t = ks_t; a_bk_bb = ks_basebit; a_bk_io = in_out_params; a_bk_bp = bk_params; return &o_bk; }
+void tfhe_createLweBootstrappingKey(LweBootstrappingKey *bk, const LweKey *key_in, const TGswKey *rgsw_key) { evt(E_CREATEBK); a_c_bk = bk; a_c_lwe = key_in; a_c_tgsw = rgsw_key; }
+LweBootstrappingKeyFFT *new_LweBootstrappingKeyFFT(const LweBootstrappingKey *bk) { evt(E_NEWFFT); a_fft_bk = bk; return (LweBootstrappingKeyFFT *)&o_fft; }
+#include "extracted.inc"
+static int pos(int e) { int p = -1; for (int i = 0; i < 12; i++) if (i < n_ev && ev[i] == e) p = i; return p; }
+void h_keysetgen(void) {
+    static LweParams io; static TGswParams gp; TFheGateBootstrappingParameterSet ps; int32_t t, bb;
+    *(int32_t *)&ps.ks_t = t; *(int32_t *)&ps.ks_basebit = bb; *(const LweParams **)&ps.in_out_params = &io; *(const TGswParams **)&ps.tgsw_params = &gp;
+    n_ev = 0;
+    TFheGateBootstrappingSecretKeySet *sk = new_random_gate_bootstrapping_secret_keyset(&ps);
+    __CPROVER_assert(n_ev == 7, "key-set generation: each of the seven steps exactly once");
+    __CPROVER_assert(a_lwe_par == (const void *)&io && a_genlwe == (const void *)&o_lwe && pos(E_NEWLWE) < pos(E_GENLWE), "a fresh LWE key of the set's LWE parameters is generated");
+    __CPROVER_assert(a_tgsw_par == (const void *)&gp && a_gentgsw == (const void *)&o_tgsw && pos(E_NEWTGSW) < pos(E_GENTGSW), "a fresh ring key of the set's TGSW parameters is generated");
+    __CPROVER_assert(a_bk_t == t && a_bk_bb == bb && a_bk_io == (const void *)&io && a_bk_bp == (const void *)&gp, "the bootstrapping key has the set's key-switch shape and parameters");
+    __CPROVER_assert(a_c_bk == (const void *)&o_bk && a_c_lwe == (const void *)&o_lwe && a_c_tgsw == (const void *)&o_tgsw && pos(E_CREATEBK) > pos(E_GENLWE) && pos(E_CREATEBK) > pos(E_GENTGSW) && pos(E_CREATEBK) > pos(E_NEWBK),
+                     "the bootstrapping key is filled from exactly the two keys just generated, after both were generated");
+    __CPROVER_assert(a_fft_bk == (const void *)&o_bk && pos(E_NEWFFT) > pos(E_CREATEBK), "the FFT image is taken of the filled bootstrapping key");
+    __CPROVER_assert(sk->params == &ps && sk->lwe_key == &o_lwe && sk->tgsw_key == &o_tgsw && sk->cloud.params == &ps && sk->cloud.bk == &o_bk && sk->cloud.bkFFT == (const LweBootstrappingKeyFFT *)&o_fft,
+                     "the key set holds the parameters, both secret keys and the cloud part built from them");
+    free(sk);
     VERIF_REACH();
 }
 #endif
